@@ -69,7 +69,8 @@ Record mon := mkMon {
 
 Definition orTag (t b : Z) : Z := Z.lor t b.
 
-Definition mstep (m : mon) (o : obs) : mon :=
+(* [reno]: judge the Reno in-flight bound (b); the other clauses do not depend on the controller *)
+Definition mstep (reno : bool) (m : mon) (o : obs) : mon :=
   let prev := m_prev m in
   let sp := SN prev in
   let cur := o_st o in
@@ -92,7 +93,7 @@ Definition mstep (m : mon) (o : obs) : mon :=
   let ends0 := if rrto then [] else m_ends m in
   let ends1 := addAll (map fEnd (dataFrames fs)) ends0 in
   let ends' := filter (fun e => lessThan una' e) ends1 in
-  let badB := 10 + A' + D' <? Z.of_nat (length ends') in
+  let badB := reno && (10 + A' + D' <? Z.of_nat (length ends')) in
   (* duplicate-ACK run *)
   let procSeg := match o_ev o with ESeg sg _ => procd prev sg | _ => false end in
   let dups' := if isdupS then m_dups m + 1 else if procSeg || isRto then 0 else m_dups m in
@@ -135,7 +136,7 @@ Definition mstep (m : mon) (o : obs) : mon :=
               (negb (rto sc =? 2 * rto sp) || (1 <? nData fs) ||
                (mustSend && negb ((nData fs =? 1) && existsb (fun f => f_seq f =? sndUna sp) (dataFrames fs)))) in
   (* (e) floors *)
-  let badE := (rto sc <? 200000000) || (cwnd sc <? 1) || (ssthresh sc <? 2) in
+  let badE := (rto sc <? 200000000) || (reno && ((cwnd sc <? 1) || (ssthresh sc <? 2))) in
   let bad' := if negb (m_bad m =? 0) then m_bad m
               else if badA then 1 else if badB then 2 else if badC then 3 else if badC2 then 4
               else if badD then 5 else if badE then 6 else if badC0 then 7 else 0 in
@@ -151,8 +152,9 @@ Definition mstep (m : mon) (o : obs) : mon :=
 
 Definition mon0 (init : tcp) : mon := mkMon init true 0 0 0 [] false 0 false 0 false 0 0.
 
-Definition monitor (c : case) : mon :=
-  match c with CTrace _ _ init steps => fold_left mstep steps (mon0 init) end.
+Definition monitor_gen (reno : bool) (c : case) : mon :=
+  match c with CTrace _ _ init steps => fold_left (mstep reno) steps (mon0 init) end.
+Definition monitor (c : case) : mon := monitor_gen true c.
 
 (* clause that failed (1 initial window, 2 in flight, 3 fast retransmit, 4 partial ACK,
    5 time-out, 6 floors, 7 retransmission on fewer than three duplicates); for diagnosis *)
@@ -161,9 +163,10 @@ Definition spec_clause (c : case) : Z := m_bad (monitor c).
 (* 0 = satisfied, 1 = violated, 2 = the only deviation of the trace is the known-finding pattern
    C05-dupacks-after-recovery (tag bit 32); any other violation, including any other missing
    fast retransmit, is 1 and takes precedence *)
-Definition spec (c : case) : Z :=
-  let m := monitor c in
+Definition spec_gen (reno : bool) (c : case) : Z :=
+  let m := monitor_gen reno c in
   if negb (m_bad m =? 0) then 1 else if Z.land (m_tag m) 32 =? 32 then 2 else 0.
+Definition spec (c : case) : Z := spec_gen true c.
 
 (* classes reached: 1 data segments emitted, 2 fast recovery entered, 4 time-out, 8 partial ACK in
    recovery, 16 cwnd grew, 32 three duplicate ACKs beyond a finished recovery's point triggered no
